@@ -1,4 +1,4 @@
-import Proofs.C01Examples
+import Props.C01
 /-!
 C09 — k-medoids refinement never worsens the cost and keeps centers in the data.
 
@@ -6,8 +6,10 @@ C09 — k-medoids refinement never worsens the cost and keeps centers in the dat
 every accept/reject decision of a trace, in order.  The first group of theorems needs no hypothesis at all on
 the table or on the state the sweeps start from (monotone cost, k kept, centers are frames, rejected ⇒ nothing
 kept); the last group adds what holds from a consistent start (C01's predicate).
-The model is a function of (table, start, proposals, oracle): reproducibility of the real code with a fixed
-seed is checked in harness/props/c09.py (same call twice; recorded random choices replayed through the oracle).
+Reproducibility ("with a fixed random seed, or with explicitly supplied proposals, the outcome is reproducible")
+is CORRESPONDENCE-ONLY: the model is a function of (table, start state, proposals, oracle), so there is nothing
+to prove about it; that the real code consumes its RNG reproducibly is checked in harness/props/c09.py (same
+call twice, same objects reused, recorded random choices replayed through the oracle step by step).
 -/
 namespace C09
 open Ens Ens.Cluster Ens.Cluster.Ex
@@ -116,13 +118,6 @@ theorem kmedoids_keeps_k_and_frames {D : Table} {n nIters : Nat} {s : St} {props
       · exact i2 x hx
   exact ⟨hx'.len, hx'.frames, hx'.inds_lt⟩
 
-/-- the model is a function: same table, start, proposals and oracle ⇒ same run (what "reproducible" means
-for the model; the real code's use of its RNG is checked by the correspondence run) -/
-theorem kmedoids_deterministic {D : Table} {n nIters : Nat} {inds : Option (List Nat)} {ad : Option Arr}
-    {props : Option (List Nat)} {orc : List Nat} {r₁ r₂ : Except Err Run}
-    (h₁ : kmedoids D n nIters inds ad props orc = r₁) (h₂ : kmedoids D n nIters inds ad props orc = r₂) :
-    r₁ = r₂ := h₁ ▸ h₂
-
 /-! ### k-hybrid -/
 
 /-- k-hybrid is never worse (in mean squared distance) than the k-centers solution it starts from, and has
@@ -194,5 +189,26 @@ theorem kmedoids_warm_start_preserves {D : Table} {n nIters : Nat} (T : TableOK 
   obtain ⟨s, hs, hit⟩ := kmedoids_start T hw h
   obtain ⟨a, b⟩ := warm_start_preserves T hs hit
   exact ⟨s, hs, hit, a, b⟩
+
+/-- k-hybrid always runs through on distinct points: `fuel ≥ n` for the k-centers loop and `nIters·n` recorded
+random draws (at most `n` centers, one draw per center and sweep) suffice -/
+theorem hybrid_total {D : Table} {n : Nat} (T : TableOK D n) (hn : 0 < n) {nClusters : Option Nat} {cutoff : Rat}
+    {init : Option (List Nat)} {fuel nIters : Nat} {orc : List Nat}
+    (hk : nClusters ≠ some 0) (hc : 0 ≤ cutoff) (hfuel : n ≤ fuel)
+    (hinit : ∀ cs, init = some cs → cs ≠ [] ∧ cs.Nodup ∧ ∀ c ∈ cs, c < n)
+    (horc : nIters * n ≤ orc.length) :
+    ∃ r, hybrid D n nClusters cutoff init fuel nIters orc = .ok r := by
+  obtain ⟨s, hs⟩ := C01.kcenters_total T hn (nClusters := nClusters) hc hfuel hinit
+  have hcons := C01.kcenters_consistent T hk hc hinit hs
+  unfold hybrid
+  simp only [bind, Except.bind, hs]
+  by_cases hpos : nIters > 0
+  · simp only [hpos, if_true]
+    have hle : s.ctrInds.length ≤ n := length_le_of_Inj hcons.inj hcons.inds_lt
+    exact kmedoids_sweeps_total T hn hpos hcons
+      (show PropsOK n s.ctrInds.length none orc (nIters * s.ctrInds.length) from
+        le_trans (Nat.mul_le_mul_left nIters hle) horc)
+  · simp only [hpos, if_false]
+    exact ⟨_, rfl⟩
 
 end C09
